@@ -23,12 +23,22 @@ def main():
         sys.exit(2)
     os.makedirs(common.WORK, exist_ok=True)
     common.prune_caches()
-    mod = importlib.import_module("framework.props." + a.prop.lower())
-    if a.replay:
-        with open(a.replay) as f:
-            rep = json.load(f)
-        sys.exit(mod.replay(rep))
-    sys.exit(mod.main(a.tier, seed))
+    try:
+        mod = importlib.import_module("framework.props." + a.prop.lower())
+        if a.replay:
+            with open(a.replay) as f:
+                rep = json.load(f)
+            rc = mod.replay(rep)
+        else:
+            rc = mod.main(a.tier, seed)
+    except Exception:
+        # a defect of the machinery is never a verdict about the code under test
+        import traceback
+
+        traceback.print_exc()
+        print("INCONCLUSIVE: the check itself failed (see the traceback above)")
+        rc = 2
+    sys.exit(rc)
 
 
 if __name__ == "__main__":
